@@ -296,7 +296,8 @@ fn rand_value(rng: &mut Rng, n: usize) -> String {
 
 /// C02: rich heads
 pub fn gen_c02(rng: &mut Rng) -> ConnCase {
-    let n = rng.range(1, 3);
+    // now and then a longer conversation (what has gone before on a connection must not matter)
+    let n = if rng.chance(1, 25) { 6 } else { rng.range(1, 3) };
     let mut reqs = vec![];
     let mut script = vec![];
     for i in 0..n {
@@ -322,13 +323,19 @@ pub fn gen_c02(rng: &mut Rng) -> ConnCase {
                 1 => crate::recase(rng, "Accept"),
                 2 => "X-Dup".to_string(),
                 3 => rand_token(rng, rng.clone().range(1, 20)),
+                4 if rng.chance(1, 3) && r.ver == (1, 1) => crate::recase(rng, "Connection"),
                 4 => crate::recase(rng, "Cookie"),
                 _ => format!("X-{}", rand_token(rng, 3)),
             };
             let vl = *rng.pick(&[0usize, 0, 1, 5, 20, 60, 1500, 1500, 8700]);
-            r.hdrs.push((name, rand_value(rng, vl)));
+            if name.eq_ignore_ascii_case("connection") {
+                // delivered as sent, letter case included (values that keep the connection open)
+                r.hdrs.push((name, (*rng.pick(&["Keep-Alive", "TE, X-Hop-Token", "KEEP-ALIVE, Foo", "Keep-Alive"])).to_string()));
+            } else {
+                r.hdrs.push((name, rand_value(rng, vl)));
+            }
         }
-        if rng.chance(1, 30) {
+        if rng.chance(1, 30) || n == 6 {
             // a head well above 64 KiB
             for k in 0..40 {
                 r.hdrs.push((format!("X-Big-{}", k), rand_value(rng, 1800)));
@@ -382,7 +389,13 @@ pub fn gen_body(rng: &mut Rng, consume_focus: bool, big: bool) -> ConnCase {
         script.push(simple_action(i, rng));
     }
     let mut r = AReq::get("/body");
-    r.method = (*rng.pick(&["POST", "PUT", "PATCH", "GET"])).to_string();
+    r.method = (*rng.pick(&["POST", "PUT", "PATCH", "GET", "HEAD"])).to_string();
+    if rng.chance(1, 12) {
+        // the framing header far down a long header list
+        for k in 0..*rng.pick(&[99usize, 100, 130]) {
+            r.hdrs.push((format!("X-Pad-{}", k), "p".into()));
+        }
+    }
     let framing = match rng.below(7) {
         0 | 1 | 2 => Framing::Len,
         3 | 4 => Framing::Chunked,
@@ -474,12 +487,27 @@ pub const BAD_400: &[&[u8]] = &[
     b"GET / HTTP/1.1\r\nNoColonHere\r\n\r\n",
     b"GET / HTTP/1.0\r\nHost x\r\n\r\n",
     b"POST / HTTP/1.1\r\nHost: x\r\n \r\n\r\n",
+    // a header line of nothing but white space, with fields behind it
+    b"GET /ws HTTP/1.1\r\nHost: x\r\n\t\r\nX-After: y\r\n\r\n",
+    b"GET /ws HTTP/1.1\r\n  \r\nHost: x\r\n\r\n",
+    // version tokens that are not in the table although they "mean" a known version
+    b"GET / HTTP/1.01\r\nHost: x\r\n\r\n",
+    b"GET / HTTP/01.1\r\nHost: x\r\n\r\n",
+    b"GET / HTTP/+1.1\r\nHost: x\r\n\r\n",
+    b"GET / HTTP/1.+0\r\nHost: x\r\n\r\n",
+    b"GET / HTTP/02.0\r\nHost: x\r\n\r\n",
+    b"GET / HTTP/2.00\r\nHost: x\r\n\r\n",
+    b"GET / HTTP/1.1.\r\nHost: x\r\n\r\n",
 ];
 pub const BAD_417: &[&[u8]] = &[
     b"POST / HTTP/1.1\r\nExpect: 200-ok\r\nContent-Length: 3\r\n\r\nabc",
     b"GET / HTTP/1.1\r\nexpect: 100-continuex\r\n\r\n",
     b"GET / HTTP/1.0\r\nEXPECT: bogus\r\n\r\n",
     b"PUT /x HTTP/1.1\r\nExpect:\r\n\r\n",
+    // no body, and the connection would end after this request anyway
+    b"GET /e HTTP/1.0\r\nExpect: bogus\r\n\r\n",
+    b"GET /e HTTP/1.1\r\nConnection: upgrade\r\nExpect: 200-ok\r\n\r\n",
+    b"GET /e HTTP/1.1\r\nExpect: 200-ok\r\n\r\n",
 ];
 pub const BAD_505: &[&[u8]] = &[
     b"GET /v2 HTTP/2.0\r\nHost: x\r\n\r\n",
@@ -513,6 +541,15 @@ pub fn smuggle_variants() -> Vec<Vec<u8>> {
     for ws in [" ", "\t", "  \t "] {
         v.push(format!("POST /s HTTP/1.1\r\nHost: x\r\n{}\r\nContent-Length: 0\r\n\r\n", ws).into_bytes());
         v.push(format!("POST /s HTTP/1.1\r\n{}\r\nContent-Length: 38\r\n\r\n", ws).into_bytes());
+    }
+    // the offending line directly after the request line (no field in front of it)
+    for h in [" Content-Length: 38", "\tTransfer-Encoding: chunked", " X-Other: v"] {
+        v.push(format!("POST /s HTTP/1.1\r\n{}\r\nHost: x\r\n\r\n", h).into_bytes());
+    }
+    // the same syntax in a request of a version the server does not speak: still 400 and close
+    for h in ["Content-Length: 5x", " Content-Length: 38", "Content-Length : 5"] {
+        v.push(format!("POST /s HTTP/2.0\r\nHost: x\r\n{}\r\n\r\n", h).into_bytes());
+        v.push(format!("POST /s HTTP/3.0\r\n{}\r\n\r\n", h).into_bytes());
     }
     for val in ["", "+5", "-5", "5x", "abc", "5, 5", "5 5", "18446744073709551616", "99999999999999999999999", "0x10", "5.0", "+0"] {
         v.push(format!("POST /s HTTP/1.1\r\nHost: x\r\nContent-Length: {}\r\n\r\n", val).into_bytes());
